@@ -10,7 +10,7 @@
     run-time errors (any is reported as a violation). The model has no crash outcomes: its functions
     are total by construction (pattern matching instead of index expressions). *)
 From MowCli Require Import Base Lexer Parser Nfa Matchers Apply
-     Values Flow Cmd LexerProofs ParserProofs NfaProofs ApplyProofs TermProofs CompileProofs.
+     Values Flow Cmd LexerProofs ParserProofs NfaProofs ApplyProofs TermProofs CompileProofs MemoProofs.
 
 Theorem C03_lexer_total : forall s, tokenize s <> LexFuel.
 Proof. exact tokenize_total. Qed.
@@ -45,6 +45,25 @@ Proof. exact m_group_never_out_of_fuel. Qed.
     assignment of environment-backed options ([D] arbitrary), the recursion ends within
     [apply_fuel] = (2*size+2)*(states+1)+1 nested calls — no unbounded recursion, hence no stack
     exhaustion — and answers accept or reject *)
+(** Since the repair D10 the library's search remembers, for the whole search, the configurations (state, remaining
+    arguments, options-ended flag) entered right after input was consumed that were explored without success, so that
+    the same remaining arguments reached through another order of taking them are not explored again (a rejected line
+    no longer costs a time exponential in the number of occurrences under a repeated choice). That search
+    ([MemoProofs.apply_m]) returns exactly what the plain search returns — so every theorem about [fsm_apply] is a
+    theorem about it. *)
+Theorem C03_memoised_search_same_result :
+  forall D g start args,
+    wf_graph g -> start < nstates g -> fsm_apply_m D g start args = fsm_apply D g start args.
+Proof. intros D g start args Hwf Hs. now apply fsm_apply_m_same. Qed.
+
+Theorem C03_remembered_configurations_are_dead :
+  forall D g, wf_graph g ->
+  forall fuel s args ro seen dead,
+    DeadOK D g dead -> fst (apply D g fuel s args ro seen) <> AFuel ->
+    fst (apply_m D g fuel s args ro seen dead) = apply D g fuel s args ro seen /\
+    DeadOK D g (snd (apply_m D g fuel s args ro seen dead)).
+Proof. exact apply_m_same_result. Qed.
+
 Theorem C03_apply_total :
   forall D g start args,
     wf_graph g -> start < nstates g -> fsm_apply D g start args <> AFuel.
@@ -68,6 +87,8 @@ Theorem C03_run_total :
   forall pf ge a argv, r_outcome (run pf ge a argv) <> RFuel.
 Proof. exact run_total. Qed.
 
+Print Assumptions C03_memoised_search_same_result.
+Print Assumptions C03_remembered_configurations_are_dead.
 Print Assumptions C03_lexer_total.
 Print Assumptions C03_compile_total.
 Print Assumptions C03_parse_total.
@@ -92,4 +113,15 @@ Example C03_d3_witness :
   | IOk i => match fsm_parse (fun _ => None) i [lit "x"] with PAccept _ _ => true | _ => false end
   | _ => false
   end = true.
+Proof. vm_compute. reflexivity. Qed.
+
+(** the memoised search at work: the repeated choice (-a | -b | -c)... on a rejected line, both searches agree *)
+Example C03_memo_example :
+  let D := mkOI (fun n => if str_eqb n (lit "-a") then Some 0 else if str_eqb n (lit "-b") then Some 1
+                          else if str_eqb n (lit "-c") then Some 2 else None) (fun _ => true) (fun _ => false) in
+  let g := mkGraph [[(LOpt 0, 0); (LOpt 1, 0); (LOpt 2, 0)]] [true] in
+  let line := [lit "-a"; lit "-b"; lit "-c"; lit "-b"; lit "-a"; lit "-z"] in
+  (fsm_apply_m D g 0 line, fsm_apply D g 0 line,
+   fsm_apply_m D g 0 [lit "-c"; lit "-a"], fsm_apply D g 0 [lit "-c"; lit "-a"])
+  = (AFail, AFail, AOk [(KO 0, lit "true"); (KO 2, lit "true")], AOk [(KO 0, lit "true"); (KO 2, lit "true")]).
 Proof. vm_compute. reflexivity. Qed.
